@@ -297,20 +297,27 @@ fn position_in_range(start: (u32, u32), end: (u32, u32), target: LineChar) -> bo
     true
 }
 
+/// Convert a (line, UTF-16 column) position, relative to the start of source, to a byte index
+/// into source.
 fn get_index_of_line_char(source: &str, line_char: LineChar) -> u32 {
-    let mut remaining_line_breaks = line_char.line;
-    for (index, char) in source.chars().enumerate() {
-        if char == '\n' {
-            remaining_line_breaks -= 1;
-        }
-
-        if remaining_line_breaks == 0 {
-            // Why were we off by one to begin with? This is a bad fix!
-            return index as u32 + line_char.character + 1;
+    let mut line_start = 0;
+    for _ in 0..line_char.line {
+        match source[line_start..].find('\n') {
+            Some(index) => line_start += index + 1,
+            // Should we panic?
+            None => return source.len() as u32,
         }
     }
 
-    // Should we panic?
+    let mut remaining_utf16_code_units = line_char.character;
+    for (index, char) in source[line_start..].char_indices() {
+        if remaining_utf16_code_units == 0 || char == '\n' {
+            return (line_start + index) as u32;
+        }
+        remaining_utf16_code_units =
+            remaining_utf16_code_units.saturating_sub(char.len_utf16() as u32);
+    }
+
     source.len() as u32
 }
 
